@@ -50,6 +50,10 @@ def check(case):
                 with core.Scratch() as tmp:
                     import os
 
+                    # the path already holds an export of the same size with the same footer and other counters
+                    img = bytes(cms)
+                    with open(os.path.join(tmp, "c.cms"), "wb") as fh:
+                        fh.write(bytes(len(img) - 16) + img[-16:])
                     cms.export(os.path.join(tmp, "c.cms"))
                     cms = CountMinSketch(filepath=os.path.join(tmp, "c.cms"), hash_function=fn)
             continue
